@@ -8,7 +8,7 @@ import ast
 
 from .core import PureTr, Unsupported, find_def
 from .driver_py import dotted
-from .lazy import Inliner
+from .lazy import Inliner, normalise
 
 OUTPUTS = ["GenOps.v"]
 SEA, DE, LHS, SOBOL, INIT = ("pyhms/demes/single_pop_eas/sea.py", "pyhms/demes/single_pop_eas/de.py", "pyhms/demes/lhs_deme.py", "pyhms/demes/sobol_deme.py",
@@ -219,7 +219,7 @@ def translate(repo):
         if len(lo) != 1 or len(hi) != 1 or ast.unparse(Inliner(init, src).inline(lo[0].value, lo[0])) != "deme_init_args.config.bounds[:, 0]" \
                 or ast.unparse(Inliner(init, src).inline(hi[0].value, hi[0])) != "deme_init_args.config.bounds[:, 1]":
             raise Unsupported(f"{src}: {cls} lower/upper bounds are not the columns of config.bounds")
-        fn = find_def(mod, "run", cls)
+        fn = normalise(find_def(mod, "run", cls))
         comps = [n for n in ast.walk(fn) if isinstance(n, ast.ListComp) and isinstance(n.elt, ast.Call) and dotted(n.elt.func) == "Individual"
                  and n.elt.args and isinstance(n.elt.args[0], ast.Name) and isinstance(n.generators[0].target, ast.Name) and n.elt.args[0].id == n.generators[0].target.id]
         if len(comps) != 1:
